@@ -18,7 +18,7 @@ struct IVM {
   virtual std::pair<bool, int> try_get(int k) = 0;
   virtual std::pair<bool, int> find_it(int k) = 0;
   virtual std::pair<bool, int> erase_found(int k) = 0;
-  virtual void traverse(const IHM::TCb& cb, bool move_assign) = 0;
+  virtual void traverse(const IHM::TCb& cb, bool move_assign, int stop_after) = 0;
 };
 
 // key / value conversions -------------------------------------------------------------------------
@@ -138,7 +138,11 @@ struct VM : IVM {
     it.reset();
     return {true, r};
   }
-  void traverse(const IHM::TCb& cb, bool move_assign) override {
+  // stop_after > 0: the traversal is abandoned after that many elements by assigning the past-the-end iterator to the
+  // positioned one (`it = map.end()`), the idiom for "done with this iterator" besides reset(): the bucket lock has
+  // to be released by it like by reset() ("after the iterator is reset/destroyed every bucket lock is released")
+  void traverse(const IHM::TCb& cb, bool move_assign, int stop_after) override {
+    int seen = 0;
     cb.pre_step();
     auto it = m.begin();
     cb.post_step();
@@ -163,6 +167,12 @@ struct VM : IVM {
         }
         cb.post_erase(nk);
       } else {
+        if (stop_after > 0 && ++seen == stop_after) {
+          cb.pre_step();
+          it = m.end();
+          cb.post_step();
+          break;
+        }
         cb.pre_step();
         ++it;
         cb.post_step();
@@ -300,7 +310,7 @@ public:
       if (c11 && t == 0) {
         int ntr = g.rng.range(1, 2);
         for (int i = 0; i < ntr; i++)
-          p.threads[t].ops.push_back(Op{OP_TRAVERSE, g.rng.chance(60) ? (int64_t)g.rng.below(nkeys) : -1, (int64_t)g.rng.below(2), 0});
+          p.threads[t].ops.push_back(Op{OP_TRAVERSE, g.rng.chance(60) ? (int64_t)g.rng.below(nkeys) : -1, (int64_t)g.rng.below(2), g.rng.chance(25) ? (int64_t)g.rng.range(1, 3) : 0});
         continue;
       }
       bool reader = c11 && t == 1; // readers only use the lock-free try_get_value
@@ -310,7 +320,7 @@ public:
         int r = (int)g.rng.below(100);
         Op o;
         if (reader) o = Op{OP_TRY_GET, k, 0, 0};
-        else if (seq && r < 6) o = Op{OP_TRAVERSE, g.rng.chance(60) ? (int64_t)g.rng.below(nkeys) : -1, (int64_t)g.rng.below(2), 0};
+        else if (seq && r < 6) o = Op{OP_TRAVERSE, g.rng.chance(60) ? (int64_t)g.rng.below(nkeys) : -1, (int64_t)g.rng.below(2), g.rng.chance(25) ? (int64_t)g.rng.range(1, 3) : 0};
         else if (r < 22) o = Op{OP_EMPLACE, k, nextv++, 0};
         else if (r < 30) o = Op{OP_GET_OR_EMPLACE, k, nextv++, 0};
         else if (r < 38) o = Op{OP_GET_OR_EMPLACE_LAZY, k, nextv++, 0};
@@ -394,8 +404,8 @@ public:
           return er;
         };
         cb.post_erase = [&](int nk) { op_end(1, nk < 0 ? -1 : nk / stride); };
-        m->traverse(cb, op.b != 0);
-        note(OP_T_END, pos, id);
+        m->traverse(cb, (op.b & 1) != 0, (int)op.c);
+        note(OP_T_END, pos, id, op.c > 0 ? 1 : 0);
         break;
       }
     }
@@ -410,7 +420,7 @@ public:
       note(OP_FINAL, kk / stride, val);
       return false;
     };
-    m->traverse(cb, false);
+    m->traverse(cb, false, 0);
     for (int k = 0; k < nkeys; k++) run(Op{OP_FIND_IT, k, 0, 0});
     // no lost locks: every key of the universe can still be inserted and erased (a leaked bucket lock would hang)
     for (int k = 0; k < nkeys; k++) {
@@ -490,7 +500,8 @@ void VHarness::check(CheckCtx& c) {
         if (h.ops[yields[a]].a == h.ops[yields[b]].a)
           return c.fail("iterator-duplicate", "traversal yielded key %ld twice", (long)h.ops[yields[a]].a);
     // completeness: elements inserted before the traversal and not possibly erased before its end must be yielded
-    for (int i = 0; i < h.n; i++) {
+    // (not for a traversal that was abandoned on purpose)
+    for (int i = 0; i < h.n && h.ops[te].c == 0; i++) {
       const OpRec& I = h.ops[i];
       bool ins = I.status == 1 && (I.kind == OP_EMPLACE || I.kind == OP_GET_OR_EMPLACE || I.kind == OP_GET_OR_EMPLACE_LAZY);
       if (!ins || !h.precedes(I, T)) continue;
